@@ -1,17 +1,21 @@
 package main
 
-// Family "factory" (property C14): loads a default rule and a rule set through heimdall's real loading path and
-// reports the load verdict and, for an accepted rule, what is executed for a handful of probe requests.
+// Family "factory" (property C14): loads a default rule and a history of rule sets through heimdall's real loading
+// path, all rule sets of a case by ONE rule factory, and reports per rule the load verdict and, for an accepted
+// rule, what is executed for a handful of probe requests.
 //
-//   config file (YAML, real schema validation)  -> config.NewConfiguration
-//   mechanism catalogue (real mechanisms)       -> mechanisms.NewMechanismFactory
-//   default rule                                -> rules.NewRuleFactory
-//   rule set (YAML text)                        -> rules/config.ParseRules -> rules.NewRuleSetProcessor(...).OnCreated
+//   config file (YAML, real schema validation)  -> config.NewConfiguration            (shared by cases)
+//   mechanism catalogue (real mechanisms)       -> mechanisms.NewMechanismFactory     (shared by cases)
+//   default rule                                -> rules.NewRuleFactory               (one per case)
+//   rule set document, YAML or JSON text        -> rules/config.ParseRules
+//   or kubernetes RuleSet resource (JSON)       -> encoding/json + the provider's toRuleSetConfiguration
+//   rule set                                    -> rules.NewRuleSetProcessor(repository, factory).OnCreated
 //   probe requests                              -> repository.FindRule + rule.Execute on requestcontext.New(req)
 //
+// Lists (`execute`, `on_error`) reach the documents exactly as spelled in the case: key absent, null, [] or steps.
 // Every mechanism of the catalogue leaves a visible mark when it runs: generic authenticators, remote authorizers
 // and generic contextualizers call a loopback server that records the call; header finalizers append to one
-// upstream header; error handlers redirect to a location naming them.
+// upstream header; error handlers redirect to a location naming them. Ids may be shared between kinds.
 
 import (
 	"encoding/json"
@@ -33,6 +37,8 @@ import (
 	"github.com/dadrus/heimdall/internal/rules"
 	rulecfg "github.com/dadrus/heimdall/internal/rules/config"
 	"github.com/dadrus/heimdall/internal/rules/mechanisms"
+	"github.com/dadrus/heimdall/internal/rules/provider/kubernetes"
+	"github.com/dadrus/heimdall/internal/rules/provider/kubernetes/api/v1alpha4"
 	"github.com/dadrus/heimdall/internal/rules/rule"
 	"github.com/dadrus/heimdall/internal/watcher"
 )
@@ -229,9 +235,12 @@ func facSteps(m map[string]any, k string) []any {
 	return res
 }
 
+// facEnv is what cases may share: the loaded configuration and the mechanism catalogue built from it. The rule
+// factory is created anew for every case, so that whatever a factory remembers stays inside the case.
 type facEnv struct {
-	err     string
-	factory rule.Factory
+	err  string
+	conf *config.Configuration
+	mf   mechanisms.MechanismFactory
 }
 
 var facEnvs = map[string]*facEnv{}
@@ -282,11 +291,27 @@ func facErrKind(err error) string {
 	}
 }
 
+// facList copies one of the lists of a definition into the document heimdall reads, keeping its spelling: key
+// absent, `null`, or a list (possibly empty).
+func facList(from map[string]any, key string, to map[string]any) {
+	v, ok := from[key]
+	if !ok {
+		return
+	}
+
+	if v == nil {
+		to[key] = nil
+
+		return
+	}
+
+	to[key] = facSteps(from, key)
+}
+
 func facGetEnv(c map[string]any) *facEnv {
-	mode := getStr(c, "mode")
 	def := c["default"]
 
-	keyRaw, _ := json.Marshal(map[string]any{"mode": mode, "default": def, "cat": c["cat"]})
+	keyRaw, _ := json.Marshal(map[string]any{"default": def, "cat": c["cat"]})
 	key := string(keyRaw)
 
 	if env, ok := facEnvs[key]; ok {
@@ -315,13 +340,8 @@ func facGetEnv(c map[string]any) *facEnv {
 			dr["backtracking_enabled"] = v
 		}
 
-		if _, ok := d["execute"]; ok {
-			dr["execute"] = facSteps(d, "execute")
-		}
-
-		if _, ok := d["on_error"]; ok {
-			dr["on_error"] = facSteps(d, "on_error")
-		}
+		facList(d, "execute", dr)
+		facList(d, "on_error", dr)
 
 		doc["default_rule"] = dr
 	}
@@ -364,34 +384,22 @@ func facGetEnv(c map[string]any) *facEnv {
 		return env
 	}
 
-	logger := zerolog.Nop()
-
-	mf, err := mechanisms.NewMechanismFactory(conf, logger, &watcher.NoopWatcher{}, nil, nil)
+	mf, err := mechanisms.NewMechanismFactory(conf, zerolog.Nop(), &watcher.NoopWatcher{}, nil, nil)
 	if err != nil {
 		env.err = "harness:catalogue:" + err.Error()
 
 		return env
 	}
 
-	opMode := config.DecisionMode
-	if mode == "proxy" {
-		opMode = config.ProxyMode
-	}
-
-	rf, err := rules.NewRuleFactory(mf, conf, opMode, logger)
-	if err != nil {
-		env.err = "factory:" + facErrClass(err)
-
-		return env
-	}
-
-	env.factory = rf
+	env.conf, env.mf = conf, mf
 
 	return env
 }
 
-func facRuleSet(c map[string]any) ([]byte, error) {
-	r := obj(c["rule"])
+// facRuleSet renders the k-th rule of the case, together with the companion rule, as the rule set document of
+// the requested load path: the YAML or JSON text a file/endpoint/bucket provider reads, or the JSON of a
+// kubernetes RuleSet resource.
+func facRuleSet(r map[string]any, loadPath string, k int) ([]byte, error) {
 	fwd := map[string]any{"host": "upstream.test:8080"}
 
 	match := map[string]any{"routes": []any{map[string]any{"path": "/r/:x"}}, "methods": []any{"GET"}}
@@ -404,13 +412,8 @@ func facRuleSet(c map[string]any) ([]byte, error) {
 		main["forward_to"] = fwd
 	}
 
-	if _, ok := r["execute"]; ok {
-		main["execute"] = facSteps(r, "execute")
-	}
-
-	if _, ok := r["on_error"]; ok {
-		main["on_error"] = facSteps(r, "on_error")
-	}
+	facList(r, "execute", main)
+	facList(r, "on_error", main)
 
 	companion := map[string]any{
 		"id":         "companion",
@@ -419,9 +422,53 @@ func facRuleSet(c map[string]any) ([]byte, error) {
 		"execute":    []any{map[string]any{"authenticator": "anon"}},
 	}
 
-	return yaml.Marshal(map[string]any{
-		"version": rulecfg.CurrentRuleSetVersion, "name": "c14", "rules": []any{main, companion},
-	})
+	name := fmt.Sprintf("c14-%d", k)
+
+	switch loadPath {
+	case "k8s":
+		return json.Marshal(map[string]any{
+			"apiVersion": "heimdall.dadrus.github.com/v1alpha4", "kind": "RuleSet",
+			"metadata": map[string]any{"name": name, "namespace": "verif", "uid": name},
+			"spec":     map[string]any{"authClassName": "verif", "rules": []any{main, companion}},
+		})
+	case "json":
+		return json.Marshal(map[string]any{
+			"version": rulecfg.CurrentRuleSetVersion, "name": name, "rules": []any{main, companion},
+		})
+	default:
+		return yaml.Marshal(map[string]any{
+			"version": rulecfg.CurrentRuleSetVersion, "name": name, "rules": []any{main, companion},
+		})
+	}
+}
+
+// facParse is the decoding step of the load path: rules/config.ParseRules (with its validation) for documents of
+// the file based providers, the JSON decoding of the resource and the kubernetes provider's own conversion
+// (no validation: that is the API server's and the admission controller's business) for "k8s".
+func facParse(raw []byte, loadPath string, k int) (*rulecfg.RuleSet, error) {
+	switch loadPath {
+	case "k8s":
+		var res v1alpha4.RuleSet
+		if err := json.Unmarshal(raw, &res); err != nil {
+			return nil, err
+		}
+
+		return kubernetes.VerifC14ToRuleSetConfiguration(&res), nil
+	case "json":
+		rs, err := rulecfg.ParseRules("application/json", strings.NewReader(string(raw)), false)
+		if err == nil {
+			rs.Source = fmt.Sprintf("c14-%d", k)
+		}
+
+		return rs, err
+	default:
+		rs, err := rulecfg.ParseRules("application/yaml", strings.NewReader(string(raw)), false)
+		if err == nil {
+			rs.Source = fmt.Sprintf("c14-%d", k)
+		}
+
+		return rs, err
+	}
 }
 
 func facProbe(repo rule.Repository, method, path string, authnOK, skip bool) map[string]any {
@@ -458,11 +505,40 @@ func facProbe(repo rule.Repository, method, path string, authnOK, skip bool) map
 	return res
 }
 
+// facLoad loads one rule set through the given factory into a repository of its own and probes it.
+func facLoad(rf rule.Factory, r map[string]any, loadPath string, k int) (map[string]any, error) {
+	raw, err := facRuleSet(r, loadPath, k)
+	if err != nil {
+		return nil, err
+	}
+
+	ruleSet, err := facParse(raw, loadPath, k)
+	if err != nil {
+		return map[string]any{"load": "rejected", "class": "parse:" + facErrClass(err)}, nil //nolint:nilerr
+	}
+
+	repo := rules.VerifC14NewRepository(rf)
+	proc := rules.NewRuleSetProcessor(repo, rf)
+
+	if err = proc.OnCreated(ruleSet); err != nil {
+		return map[string]any{"load": "rejected", "class": "create:" + facErrClass(err)}, nil //nolint:nilerr
+	}
+
+	return map[string]any{"load": "accepted", "probes": []any{
+		facProbe(repo, "GET", "/r/a", false, false),
+		facProbe(repo, "GET", "/r/a", false, true),
+		facProbe(repo, "GET", "/r/a", true, false),
+		facProbe(repo, "GET", "/r/a", true, true),
+		facProbe(repo, "POST", "/r/a", true, false),
+		facProbe(repo, "GET", "/other", true, false),
+	}}, nil
+}
+
 func runFactory(c map[string]any) (any, error) {
 	facOnce.Do(facSetup)
 
 	env := facGetEnv(c)
-	if env.factory == nil {
+	if env.mf == nil {
 		if strings.HasPrefix(env.err, "harness:") {
 			return nil, errors.New(env.err)
 		}
@@ -470,42 +546,27 @@ func runFactory(c map[string]any) (any, error) {
 		return map[string]any{"factory": "rejected", "class": env.err}, nil
 	}
 
-	raw, err := facRuleSet(c)
+	opMode := config.DecisionMode
+	if getStr(c, "mode") == "proxy" {
+		opMode = config.ProxyMode
+	}
+
+	// one real rule factory for the whole history of the case
+	rf, err := rules.NewRuleFactory(env.mf, env.conf, opMode, zerolog.Nop())
 	if err != nil {
-		return nil, err
+		return map[string]any{"factory": "rejected", "class": "factory:" + facErrClass(err)}, nil //nolint:nilerr
 	}
 
-	res := map[string]any{"factory": "ok"}
+	loads := []any{}
 
-	ruleSet, err := rulecfg.ParseRules("application/yaml", strings.NewReader(string(raw)), false)
-	if err != nil {
-		res["load"] = "rejected"
-		res["class"] = "parse:" + facErrClass(err)
+	for k, r := range getArr(c, "rules") {
+		res, err := facLoad(rf, obj(r), getStr(c, "path"), k)
+		if err != nil {
+			return nil, err
+		}
 
-		return res, nil
+		loads = append(loads, res)
 	}
 
-	ruleSet.Source = "c14"
-
-	repo := rules.VerifC14NewRepository(env.factory)
-	proc := rules.NewRuleSetProcessor(repo, env.factory)
-
-	if err = proc.OnCreated(ruleSet); err != nil {
-		res["load"] = "rejected"
-		res["class"] = "create:" + facErrClass(err)
-
-		return res, nil
-	}
-
-	res["load"] = "accepted"
-	res["probes"] = []any{
-		facProbe(repo, "GET", "/r/a", false, false),
-		facProbe(repo, "GET", "/r/a", false, true),
-		facProbe(repo, "GET", "/r/a", true, false),
-		facProbe(repo, "GET", "/r/a", true, true),
-		facProbe(repo, "POST", "/r/a", true, false),
-		facProbe(repo, "GET", "/other", true, false),
-	}
-
-	return res, nil
+	return map[string]any{"factory": "ok", "loads": loads}, nil
 }
